@@ -36,8 +36,8 @@ func (e *Engine) verifyFunc(name, prop string, cfg solverCfg, verbose bool) *fun
 	}
 	fr.VC = vc
 	glueCfg := cfg
-	if glueCfg.timeoutMs > 2000 {
-		glueCfg.timeoutMs = 2000
+	if glueCfg.timeoutMs > 2000*loadScale {
+		glueCfg.timeoutMs = 2000 * loadScale
 	}
 	for iter := 1; iter <= 12; iter++ {
 		fr.Iter = iter
@@ -275,6 +275,7 @@ func main() {
 	if cfg.thorough {
 		cfg.timeoutMs = 60000
 	}
+	cfg.timeoutMs *= loadScale
 	t0 := time.Now()
 	e, err := loadEngine(*repo)
 	if err != nil {
